@@ -340,7 +340,8 @@ var c05FilterAtoms = []string{
 }
 
 var c05Patterns = []string{"$x + $y", "$x == $y", "f($x, $y)", "g($x, $y)", "$x - $y", "$x * $y", "$y[$x]", "$x = $y", "$x := $y", "$x.$y"}
-var c05Messages = []string{"msg", "$x and $y", "$$", "quo\"te `tick` $x", "", "x=$x y=$y", "tab\there", "100% $x"}
+var c05Messages = []string{"msg", "$x and $y", "$$", "quo\"te `tick` $x", "", "x=$x y=$y", "tab\there", "100% $x",
+	"first line\r\nsecond line $x", "unix\nbreak", "\r\n", "old mac\rbreak $y"}
 
 const c05RulesHeader = `package gorules
 
